@@ -28,6 +28,7 @@ static void gen(Plan* p, Rng* r, int tier, long idx) {
     plan_set(p, "in_kind", (int64_t)rng_below(r, GEN_NKINDS));
     switch (rng_below(r, 6)) { case 0: mfs = 1 + (unsigned)rng_below(r, 64); break; case 1: mfs = 64 + (unsigned)rng_below(r, 4000); break; case 2: mfs = 1u << 30; break; case 3: mfs = 0; break; default: mfs = 1024 + (unsigned)rng_below(r, 200000); break; }
     n = rng_size(r, tier ? (2u << 20) : (300u << 10)); if (mfs && mfs < 64 && n > 12000) n = rng_below(r, 12000);
+    if ((idx % 8) == 5) { mfs = (128u << 10) * (1 + (unsigned)rng_below(r, 2)); n = (size_t)mfs * 2 + (size_t)rng_below(r, 40000); if (!tier && n > (420u << 10)) n = 420u << 10; }   /* frames whose content is a whole number of blocks: they end with an empty block */
     plan_set(p, "in_size", (int64_t)n); plan_set(p, "in_seed", (int64_t)(rng_u64(r) >> 2));
     plan_set(p, "mfs", mfs); plan_set(p, "cksum", (int64_t)rng_below(r, 2)); plan_set(p, "level", rng_range(r, 1, 6));
     /* writer history: "cw in_len out_cap" slices, "ef" explicit frame ends */
@@ -41,7 +42,7 @@ static void gen(Plan* p, Rng* r, int tier, long idx) {
     for (k = 0; k < nops; k++) {
         int const kind = (int)rng_below(r, 10);
         if (kind == 0) plan_add(p, "rf", 1, (int64_t)rng_below(r, 1 << 20));
-        else plan_add(p, "rd", 3, (int64_t)rng_below(r, 1 << 30), (int64_t)(rng_coin(r, 1, 4) ? rng_below(r, 4) : rng_coin(r, 1, 2) ? rng_below(r, 3000) : rng_below(r, 1 << 20)), (int64_t)rng_below(r, 6));   /* position seed, length, placement: 0 random 1 continue 2 frame start 3 frame end-len 4 backwards 5 tail */
+        else plan_add(p, "rd", 3, (int64_t)rng_below(r, 1 << 30), (int64_t)(rng_coin(r, 1, 4) ? rng_below(r, 4) : rng_coin(r, 1, 2) ? rng_below(r, 3000) : rng_below(r, 1 << 20)), (int64_t)rng_below(r, 8));   /* position seed, length, placement: 0 random 1 continue 2 frame start 3 frame end-len 4 backwards 5 tail 6,7 whole frames: from a frame start to the end of the same or a later frame */
     }
     /* storage faults (one run in three) and archive corruption (one run in four, separately) */
     plan_set(p, "io_fail", (idx / 3) % 3 == 1 ? 1 + (int64_t)rng_below(r, 40) : 0); plan_set(p, "io_fail2", rng_coin(r, 1, 2) ? 1 + (int64_t)rng_below(r, 200) : 0);
@@ -161,6 +162,7 @@ static void exec(const Plan* p) {
             case 3: { size_t const fe = nfr ? fr[(uint64_t)o->a[0] % nfr].d_off + fr[(uint64_t)o->a[0] % nfr].d_size : 0; off = fe > len / 2 ? fe - len / 2 : 0; break; }
             case 4: off = cursor > len + 1 ? cursor - len - 1 - (size_t)((uint64_t)o->a[0] % (cursor - len)) % (cursor - len) : 0; break;
             case 5: off = s.in_size > len ? s.in_size - len : 0; break;
+            case 6: case 7: if (nfr) { size_t const f0 = (size_t)((uint64_t)o->a[0] % nfr); size_t f1 = f0 + (size_t)(((uint64_t)o->a[0] >> 20) % 3); if (f1 >= nfr) f1 = nfr - 1; off = fr[f0].d_off; len = fr[f1].d_off + fr[f1].d_size - off; } else off = 0; break;
             default: off = s.in_size ? (size_t)((uint64_t)o->a[0] % s.in_size) : 0; break;
             }
             if (off > s.in_size) off = s.in_size; if (len > s.in_size - off) len = s.in_size - off;
@@ -171,6 +173,10 @@ static void exec(const Plan* p) {
             if (!ZSTD_isError(r)) {
                 if (r > len) sim_violation("over_capacity", "decompress returned %zu > %zu", r, len);
                 if (!corrupt && (r != len || (len && memcmp(dst, s.in + off, len)))) sim_violation("wrong_data", "read (offset %zu, length %zu) returns %zu bytes or other content (previous read ended at %zu, access %d, %zu frames, maxFrameSize %u)", off, len, r, cursor, access, nfr, mfs);
+                if (corrupt == 3 && cksum && r == len) {   /* every frame that started and ended inside this call had its checksum within reach */
+                    size_t k2; for (k2 = 0; k2 < nfr; k2++) if (fr[k2].d_size && fr[k2].d_off >= off && fr[k2].d_off + fr[k2].d_size <= off + len && memcmp(dst + (fr[k2].d_off - off), s.in + fr[k2].d_off, fr[k2].d_size))
+                        sim_violation("wrong_data_undetected", "frame data damaged, checksums on: read (offset %zu, length %zu) covers frame %zu entirely and reports success with other bytes for it", off, len, k2);
+                }
                 cursor = off + r; sim_probe(sf.failed ? "c20.reads_ok_after_fault" : "c20.reads_ok");
             } else {
                 if (!corrupt && sf.failed == failed_before) sim_violation("read_error", "read (offset %zu, length %zu) on an intact archive without storage fault: %s", off, len, ZSTD_getErrorName(r));
